@@ -18,6 +18,7 @@ import (
 
 	"nhooyr.io/websocket"
 	"verif/fw"
+	"verif/refws/frame"
 	"verif/refws/handshake"
 )
 
@@ -35,6 +36,7 @@ type c11Conn struct {
 	chunks [][]byte
 	closed bool
 	wrote  int
+	out    []byte
 }
 
 func (f *c11Conn) Read(p []byte) (int, error) {
@@ -56,6 +58,7 @@ func (f *c11Conn) Write(p []byte) (int, error) {
 		return 0, net.ErrClosed
 	}
 	f.wrote += len(p)
+	f.out = append(f.out, p...)
 	return len(p), nil
 }
 func (f *c11Conn) Close() error                       { f.closed = true; return nil }
@@ -146,7 +149,7 @@ var c11Methods = []string{"GET", "POST", "HEAD", "get"}
 var c11Protos = []struct {
 	Proto        string
 	Major, Minor int
-}{{"HTTP/1.1", 1, 1}, {"HTTP/1.0", 1, 0}, {"HTTP/2.0", 2, 0}}
+}{{"HTTP/1.1", 1, 1}, {"HTTP/1.0", 1, 0}, {"HTTP/2.0", 2, 0}, {"HTTP/0.9", 0, 9}, {"HTTP/1.2", 1, 2}}
 
 var c11Connections = []c11Lines{
 	{"exact", []string{"Upgrade"}},
@@ -471,6 +474,7 @@ type c11Stream struct {
 	Name   string
 	Wire   []byte
 	Expect []c11Msg
+	Pings  []string // payloads of the Ping frames in Wire, in order
 }
 
 // c11Frame builds one masked client frame by hand (RFC 6455 section 5.2).
@@ -496,11 +500,13 @@ func c11Streams() []c11Stream {
 	long2 := "0123456789abcdefghijklmnopqrstuvwxyzABCD" // 40
 	return []c11Stream{
 		{"hi+yo", cat(c11Frame(true, 1, k1, "hi"), c11Frame(true, 2, k2, "yo!")),
-			[]c11Msg{{false, "hi"}, {true, "yo!"}}},
+			[]c11Msg{{false, "hi"}, {true, "yo!"}}, nil},
 		{"20+40", cat(c11Frame(true, 1, k2, long1), c11Frame(true, 2, k1, long2)),
-			[]c11Msg{{false, long1}, {true, long2}}},
+			[]c11Msg{{false, long1}, {true, long2}}, nil},
 		{"fragmented+ping", cat(c11Frame(false, 1, k1, "he"), c11Frame(true, 9, k3, "p"), c11Frame(true, 0, k2, "llo"), c11Frame(true, 2, k1, long1)),
-			[]c11Msg{{false, "hello"}, {true, long1}}},
+			[]c11Msg{{false, "hello"}, {true, long1}}, []string{"p"}},
+		{"pings-first", cat(c11Frame(true, 9, k1, "a"), c11Frame(true, 9, k2, "bb"), c11Frame(true, 1, k3, "hi"), c11Frame(true, 9, k1, ""), c11Frame(true, 2, k2, "yo!")),
+			[]c11Msg{{false, "hi"}, {true, "yo!"}}, []string{"a", "bb", ""}},
 	}
 }
 
@@ -510,6 +516,9 @@ type c11BufCase struct {
 	Prefix  int    `json:"prefix"`   // bytes of the request itself that came in the same read and were consumed
 	BufSize int    `json:"buf_size"` // size of the hijacked bufio.Reader
 	Drip    bool   `json:"drip"`     // rest of the stream arrives one byte per Read instead of in one piece
+	// Other: between Accept and the first Read another (client) connection is opened and
+	// reads a message of its own: it takes its read buffer from the library's pool
+	Other bool `json:"other_connection_first"`
 }
 
 func c11BufCases() []c11BufCase {
@@ -523,7 +532,10 @@ func c11BufCases() []c11BufCase {
 			for _, bs := range []int{4096, 128} {
 				for _, prefix := range []int{0, 50} {
 					for _, drip := range []bool{false, true} {
-						out = append(out, c11BufCase{s.Name, k, prefix, bs, drip})
+						out = append(out, c11BufCase{s.Name, k, prefix, bs, drip, false})
+						if !drip {
+							out = append(out, c11BufCase{s.Name, k, prefix, bs, drip, true})
+						}
 					}
 				}
 			}
@@ -604,6 +616,17 @@ func c11BufOneP(c *fw.Ctx, cs c11BufCase, prop string) {
 	c.AddTransitions(1)
 	ctx, cancel := context.WithTimeout(context.Background(), 5*time.Second)
 	defer cancel()
+	if cs.Other {
+		foreign := bytes.Repeat([]byte{0x7a}, 100)
+		ot := mxNewTransport(frame.Data(frame.OpBinary, true, false, foreign).Encode(nil))
+		other := mxConn(ot, true, "")
+		_, got, rerr := other.Read(ctx)
+		other.CloseNow()
+		if rerr != nil || !bytes.Equal(got, foreign) {
+			c.EngineError(fmt.Sprintf("%+v: the other connection could not read its own message: %v", cs, rerr))
+			return
+		}
+	}
 	for i, want := range st.Expect {
 		var typ websocket.MessageType
 		var got []byte
@@ -627,6 +650,22 @@ func c11BufOneP(c *fw.Ctx, cs c11BufCase, prop string) {
 			return
 		}
 		c.AddTransitions(1)
+	}
+	// every Ping of the stream is answered, in order, wherever its bytes were when Accept ran
+	wire := fc.out
+	if i := bytes.Index(wire, []byte("\r\n\r\n")); i >= 0 {
+		wire = wire[i+4:]
+	}
+	fs, _ := frame.ParseAll(wire)
+	var pongs []string
+	for _, f := range fs {
+		if f.Opcode == frame.OpPong {
+			pongs = append(pongs, string(f.Payload))
+		}
+	}
+	if fmt.Sprint(pongs) != fmt.Sprint(st.Pings) {
+		c.Violate(pc("C11/buffered-pings-not-answered"), fmt.Sprintf("%+v: the stream carries Pings %q (the first %d bytes were already buffered when Accept ran); Pongs written: %q", cs, st.Pings, cs.K, pongs), cs)
+		return
 	}
 	c.OutcomeStr(fmt.Sprintf("buffered %s k=%d delivered", cs.Stream, cs.K))
 }
@@ -676,20 +715,23 @@ func init() {
 			c11One(c, cs)
 		},
 	})
-	fw.Register(fw.Part{
-		Prop: "C03", Name: "accepted",
-		Units: func(tier string) []fw.Unit {
-			return fw.Shards("splits", 2, func(c *fw.Ctx, shard, n int) { c11BufRunP(c, shard, n, "C03") })
-		},
-		Replay: func(c *fw.Ctx, data json.RawMessage) {
-			var cs c11BufCase
-			if json.Unmarshal(data, &cs) != nil {
-				c.EngineError("bad replay data")
-				return
-			}
-			c11BufOneP(c, cs, "C03")
-		},
-	})
+	for _, prop := range []string{"C03", "C15"} {
+		prop := prop
+		fw.Register(fw.Part{
+			Prop: prop, Name: "accepted",
+			Units: func(tier string) []fw.Unit {
+				return fw.Shards("splits", 2, func(c *fw.Ctx, shard, n int) { c11BufRunP(c, shard, n, prop) })
+			},
+			Replay: func(c *fw.Ctx, data json.RawMessage) {
+				var cs c11BufCase
+				if json.Unmarshal(data, &cs) != nil {
+					c.EngineError("bad replay data")
+					return
+				}
+				c11BufOneP(c, cs, prop)
+			},
+		})
+	}
 	fw.Register(fw.Part{
 		Prop: "C11", Name: "buffered",
 		Units: func(tier string) []fw.Unit { return fw.Shards("splits", 2, c11BufRun) },
